@@ -11,20 +11,38 @@ def ratioF (a b : Nat) : Float32 := if b = 0 then 1.0 else 2.0 * a.toFloat32 / b
 /-- `upper_seq_ratio` -/
 def upperSeqRatio (l1 l2 : Nat) : Float32 := ratioF (min l1 l2) (l1 + l2)
 
-def countOf (x : Bytes) (l : List Bytes) : Nat := (l.filter (· == x)).length
+/-- a counter per distinct token (the `HashMap<&T, i32>` of the Rust, as an association list) -/
+abbrev Counts := List (Bytes × Int)
 
-def distinctCount : List Bytes → Nat
-  | [] => 0
-  | x :: xs => (if xs.contains x then 0 else 1) + distinctCount xs
+def Counts.get (c : Counts) (x : Bytes) : Option Int :=
+  match c with
+  | [] => none
+  | (k, v) :: rest => if k == x then some v else Counts.get rest x
 
-/-- `QuickSeqRatio::calc`: multiset intersection size over (distinct chars of the word + len) -/
-def quickMatches (word : List Bytes) : (seen : List Bytes) → List Bytes → Nat
+def Counts.set (c : Counts) (x : Bytes) (v : Int) : Counts :=
+  match c with
+  | [] => [(x, v)]
+  | (k, v') :: rest => if k == x then (k, v) :: rest else (k, v') :: Counts.set rest x v
+
+/-- `QuickSeqRatio::new`: occurrences of each token of the word -/
+def countsOf : List Bytes → Counts
+  | [] => []
+  | x :: xs => let c := countsOf xs; c.set x ((c.get x).getD 0 + 1)
+
+/-- the loop of `QuickSeqRatio::calc`: `available` starts empty; a token matches while its
+remaining count (from `available`, else from the word's counts, else 0) is positive -/
+def quickLoop (word : Counts) : (available : Counts) → List Bytes → Nat
   | _, [] => 0
-  | seen, x :: xs =>
-    (if countOf x seen < countOf x word then 1 else 0) + quickMatches word (x :: seen) xs
+  | av, x :: xs =>
+    let n : Int := match av.get x with
+      | some c => c
+      | none => (word.get x).getD 0
+    (if 0 < n then 1 else 0) + quickLoop word (av.set x (n - 1)) xs
 
+/-- `QuickSeqRatio::calc`: matches over (distinct tokens of the word + length of the candidate) -/
 def quickRatio (word cand : List Bytes) : Float32 :=
-  ratioF (quickMatches word [] cand) (distinctCount word + cand.length)
+  let wc := countsOf word
+  ratioF (quickLoop wc [] cand) (wc.length + cand.length)
 
 /-- `TextDiff::from_slices(&seq1, &seq2).ratio()` -/
 def diffRatio (seq1 seq2 : List Bytes) : Res Float32 :=
